@@ -12,10 +12,29 @@ PROPS = {
         "assumptions": ["timeout fields are uint64 (PacketV1.WF)"],
         "level_text": "full: binding of every committed field for v1/v2 packets and acks, for all inputs, in collision-extraction form; formula equality by rfl + byte-exact correspondence",
     },
+    "C16": {
+        "lean": ["IbcVerif.Props.C16"],
+        "engines": [purefn(["keys"], n=(400, 20000), monitor=(150, 5000))],
+        "trusted": ["key-prefix words, kind bytes and suffix words are regenerated from /repo on every run (extract -> Gen/Facts.lean) and the side conditions on them are re-proved by decide",
+                    "fmt.Appendf(\"%s/%d\") / append() layouts are hand-modelled in Model/Keys.lean and tied byte-for-byte by the purefn correspondence",
+                    "that client operations reach the store only through the clients/<id>/ prefix store is SDK prefix-store behaviour (checked dynamically by the tm/lc harness store dumps, not proved)"],
+        "assumptions": ["identifiers satisfy the 24-host alphabet (IdOK); v2 sequences are uint64"],
+        "level_text": "full for v1/v2 key injectivity, v1-v2 disjointness, per-channel / per-client prefix confinement and client namespace prefixes over ALL valid identifiers; partial for the async-packet/alias suffix keys (full statement refuted by a kernel-checked witness, see known finding)",
+    },
     "C17": {
         "lean": ["IbcVerif.Props.C17"],
         "engines": [purefn(["height"])],
         "trusted": ["Height.Compare's big.Int detour modelled as unsigned 64-bit comparison; strconv.ParseUint / fmt %d modelled by IbcVerif.Model.Dec (tied by the purefn correspondence on boundary strings)"],
         "assumptions": ["exported.Height arguments are clienttypes.Height (the type assertion in Compare panics otherwise)"],
+    },
+    "C29": {
+        "lean": ["IbcVerif.Props.C29"],
+        # separate Go module (08-wasm): harness lives in /verif/harness-wasm, see core.go_build(harness_dir)
+        "engines": [{"bin": "wasmstore", "harness_dir": "harness-wasm", "model": "wasmstore", "model_exe": "lcmodel",
+                     "n": (300, 6000), "monitor": (300, 6000), "workers": 8}],
+        "trusted": ["the two wrapped SDK stores (prefix.Store over the IBC store) are modelled as finite maps with prefix.Store's calling conventions (Set panics on empty key / nil value; iteration over [start,end)); tied by running the real ClientRecoveryStore over two real prefix.Stores sharing one parent store",
+                    "the wasm VM / contract is the adversary: it may issue any sequence of Get/Set/Delete/Iterator/ReverseIterator calls with any keys (Op lists are universally quantified)"],
+        "assumptions": [],
+        "level_text": "full: substitute never modified, subject written iff key is \"subject/\"++k, reads routed by prefix, unprefixed/inconsistent keys and ranges read as empty - for all call histories and keys",
     },
 }
